@@ -20,7 +20,7 @@ RULE = ("(encoder level, exhaustive) for eco-mode v1 and v2 groups x every prior
 ASSUMPTIONS = ["v1 groups carry no SoC and encode_discharge takes none: SoC is asserted for v2 ECO_CHARGE only",
                "a limit whose encoding is the all-ones 'no value' sentinel (65535) is outside the readable domain",
                "a setter that raises (e.g. ES with undecodable prior eco registers) has not 'succeeded': nothing is asserted then"]
-MUST = ["roundtrips_in_each_mode", "background_poller_during_setters", "same_mode_repeated", "setter_with_refused_write", "polls_between_setters", "encoder_roundtrips", "mode_roundtrips", "eco_charge_checked", "eco_discharge_checked", "groups_off_checked",
+MUST = ["single_sensor_reads_before_setters", "roundtrips_in_each_mode", "background_poller_during_setters", "same_mode_repeated", "setter_with_refused_write", "polls_between_setters", "encoder_roundtrips", "mode_roundtrips", "eco_charge_checked", "eco_discharge_checked", "groups_off_checked",
         "export_limit_roundtrips", "dod_roundtrips", "prior_nonempty_types", "es_modes", "et_745", "et_v1"]
 EXHAUSTIVE = {"quick": False, "thorough": False}
 
@@ -188,6 +188,14 @@ def e2e_part(spec, part):
             if polls:
                 await inv.read_runtime_data()
                 part.count("polls_between_setters")
+                if rnd.random() < 0.5:
+                    # (the monitoring also reads single sensors - among them those whose id coincides with a setting id, e.g. work_mode)
+                    for sid_ in sorted({x.id_ for x in inv.sensors()} & {x.id_ for x in inv.settings()}) + ["vpv1"]:
+                        try:
+                            await inv.read_sensor(sid_)
+                        except (ValueError, g.InverterError):
+                            pass
+                    part.count("single_sensor_reads_before_setters")
             for m in modes:
                 p, s_ = rnd.randrange(1, 101), rnd.randrange(0, 101)
                 try:
